@@ -3,8 +3,10 @@ import os
 import framework as fw
 import cli_stream
 
-THEOREM_MODULES = ["Hcl.Theorems.C19", "Hcl.Theorems.C19Argv", "Hcl.Tie.Cli", "Hcl.Tie.PinsMain", "Hcl.Theorems.C19Bytes"]
-THEOREMS = {"Hcl.Theorems.C19Bytes": ["C19_argv_bytes_not_utf8", "C19_argv_bytes_utf8", "C19_argv_bytes_status"],
+THEOREM_MODULES = ["Hcl.Theorems.C19", "Hcl.Theorems.C19Argv", "Hcl.Tie.Cli", "Hcl.Tie.PinsMain", "Hcl.Theorems.C19Bytes", "Hcl.Tie.Run", "Hcl.Tie.PinsRun"]
+THEOREMS = {"Hcl.Tie.PinsRun": ["Tie.PinsRun.pinRun", "Tie.PinsRun.pinSetTimeout", "Tie.PinsRun.pinTimedOut"],
+            "Hcl.Tie.Run": ["Tie.Run.doneText", "Tie.Run.defaultTimeout"],
+            "Hcl.Theorems.C19Bytes": ["C19_argv_bytes_not_utf8", "C19_argv_bytes_utf8", "C19_argv_bytes_status"],
             "Hcl.Theorems.C19": ["C19_exit", "C19_option_error", "C19_output_matches_status", "C19_check_simulates_nothing"],
             "Hcl.Theorems.C19Argv": ["C19_argv_exit", "C19_argv_option_error", "C19_argv_option_error_anywhere", "C19_argv_option_twice", "C19_argv_timeout", "C19_argv_bad_timeout", "C19_argv_options_commute", "C19Argv.parse_error_iff", "C19Argv.parse_ok", "C19Argv.optPresent_iff", "C19Argv.isBad_iff", "C19Argv.help_present_iff", "C19Argv.parseU32_iff"],
             "Hcl.Tie.Cli": ["Tie.Cli.cliOptions", "Tie.Cli.cliDefaultTimeout", "Tie.Cli.cliYoSuffix"],
@@ -49,6 +51,18 @@ def judge(req, impl, model, spec):
             what = flag + " for " + req[req.find("(args"):][:200]
     if "out=finalState" in impl:
         cats.append(impl.split("banner=")[1])
+        # "simulated to halt, error status or timeout ... The timeout argument is honoured exactly": the number of cycles and
+        # the kind of final report the generator expects from the program's own stopping cycle and the timeout (its tables
+        # STOP / ABORT_AT, independent of the Lean model) against what was printed
+        import re as _re
+        want_c = _re.search(r"\(cycles ([^)]*)\)", req)
+        want_b = _re.search(r"\(banner ([^)]*)\)", req)
+        got_c = impl.split("cycles=")[1].split(" ")[0] if "cycles=" in impl else "-"
+        got_b = impl.split("banner=")[1].split(" ")[0]
+        if want_c and want_b and (want_c.group(1) != got_c or want_b.group(1) != got_b) and "(run finished)" in req:
+            ok = False
+            what = "the final report says %s after %s cycles, the program and the timeout give %s after %s cycles, for %s" % (
+                got_b, got_c, want_b.group(1), want_c.group(1), req[req.find("(args"):][:200])
     if "out=optionMessage" in impl:
         cats.append("getopts:" + bytes.fromhex(impl.split("msg=x")[1].split(" ")[0]).decode("utf-8", "replace").split("'")[0].strip() if "msg=x" in impl else "getopts")
     return {"corr": impl == model and fields_ok, "oracle": ok, "what": what, "key": req[req.find("(args"):], "cats": cats}
